@@ -76,14 +76,28 @@ def run_check(prop: str, tier: str, verif_seed: int, runs: int | None, shrink_en
     rc = 0
     try:
         results = run_cases(pools, prop, items, deadline=deadline)
-        # property-specific global phases (enumeration for C11, cross-device agreement for C03)
-        if prop == "C11":
+        # hard budget: a tree on which the simulator keeps stalling must not run the check into its
+        # outer timeout - once violations are known and time is short the remaining phases (which
+        # could only add more) are skipped; skipped phases without any violation = HARNESS-ERROR
+        hard = t0 + {"quick": 1100.0, "thorough": 5400.0}[tier] * float(os.environ.get("MDPSIM_HARD_SCALE", "1"))
+        found = any(split_known(prop, r.get("violations") or [], known)[0] for r in results if r.get("verdict") == "violation")
+        skipped = []
+
+        def go(name):
+            late = time.time() > hard or (found and time.time() > t0 + (hard - t0) * 0.5)
+            if late:
+                skipped.append(name)
+            return not late
+
+        if prop == "C11" and not go("enumeration"):
+            pass
+        elif prop == "C11":
             from . import enum_c11
 
             extra = enum_c11.run(pools, tier, verif_seed, deadline, known)
-        if prop == "C10":
+        if prop == "C10" and go("grid"):
             extra = c10_grid(pools, verif_seed, tier, known)
-        if prop in ("C09", "C12"):
+        if prop in ("C09", "C12") and go("grid"):
             from . import enum_grid
 
             extra = enum_grid.run(pools, prop, tier, verif_seed, deadline, known)
@@ -91,14 +105,14 @@ def run_check(prop: str, tier: str, verif_seed: int, runs: int | None, shrink_en
             from . import gen_sched
 
             extra = gen_sched.cross_device(results)
-        if prop in ("C11", "C09", "C10", "C12"):
+        if prop in ("C11", "C09", "C10", "C12") and go("fidelity"):
             fid = fidelity_phase(pools, prop, verif_seed, {"C11": 16, "C09": 10, "C10": 6, "C12": 6}[prop] * (1 if tier == "quick" else 12), known)
             extra.setdefault("violations", []).extend(fid.pop("violations"))
             for k, v in fid.pop("known").items():
                 extra.setdefault("known", {})[k] = extra.setdefault("known", {}).get(k, 0) + v
             extra["harness_errors"] = extra.get("harness_errors", 0) + fid.pop("harness_errors")
             extra["x_fidelity_real_lifetimes"] = fid
-        if prop in ("C09", "C10", "C11", "C12"):
+        if prop in ("C09", "C10", "C11", "C12") and go("readme_order"):
             ro = readme_phase(pools, prop, verif_seed, {"C09": 8, "C10": 5, "C11": 6, "C12": 4}[prop] * (1 if tier == "quick" else 8))
             extra.setdefault("violations", []).extend(ro.pop("violations"))
             for kid, cnt in ro.pop("known").items():
@@ -106,7 +120,12 @@ def run_check(prop: str, tier: str, verif_seed: int, runs: int | None, shrink_en
             extra["harness_errors"] = extra.get("harness_errors", 0) + ro.pop("harness_errors")
             extra["x_readme_boot_order_real_processes"] = ro
         # determinism slice: re-execute a few cases, histories must be identical
-        det = determinism_slice(pools, prop, results, k=24 if tier == "quick" else 120)
+        det = determinism_slice(pools, prop, results, k=24 if tier == "quick" else 120) if go("determinism") else {"reexecuted": 0, "diverged": []}
+        if skipped:
+            extra["x_phases_skipped_for_time"] = skipped
+            print(f"NOTE: phases skipped because the hard time budget was reached: {skipped}")
+            if not found and not extra.get("violations"):
+                extra["harness_errors"] = extra.get("harness_errors", 0) + 1
         rc = finish(prop, tier, verif_seed, results, extra, det, known, pools, t0, shrink_enabled)
     finally:
         pools.shutdown()
